@@ -138,6 +138,34 @@ package_info extpkg =
 			exp.WriteString("{" + strings.Join(shows, " ") + "}\n")
 		}
 	}
+	// ---- generic records with several type parameters, built by Folang record literals: every type
+	// parameter is instantiated on its own (concrete literal, generic let, inside a function body)
+	foB.WriteString(`type GPair<A, B> = {GFst: A; GSnd: B}
+
+type GTrip<A, B, C> = {GT1: A; GT2: B; GT3: C}
+
+let mkGPair () =
+  {GFst=7; GSnd="seven"}
+
+let mkGGen a b =
+  {GFst=a; GSnd=b}
+
+let mkGTrip (x:int) =
+  {GT1=x; GT2="t"; GT3=true}
+
+let useGPair () =
+  let p = {GFst="k"; GSnd=3}
+  p.GSnd + 1
+
+let swapGPair (p: GPair<int, string>) =
+  {GFst=p.GSnd; GSnd=p.GFst}
+
+`)
+	cl.WriteString("\tvar gp GPair[int, string] = mkGPair()\n\tfmt.Println(gp.GFst, gp.GSnd)\n")
+	cl.WriteString("\tvar gg GPair[string, bool] = mkGGen[string, bool](\"x\", true)\n\tfmt.Println(gg.GFst, gg.GSnd)\n")
+	cl.WriteString("\tvar gt GTrip[int, string, bool] = mkGTrip(5)\n\tfmt.Println(gt.GT1, gt.GT2, gt.GT3, useGPair())\n")
+	cl.WriteString("\tvar gs GPair[string, int] = swapGPair(gp)\n\tfmt.Println(gs.GFst, gs.GSnd)\n")
+	exp.WriteString("7 seven\nx true\n5 t true 4\nseven 7\n")
 	// ---- unions
 	nun := 1 + r.Intn(2)
 	for i := 0; i < nun; i++ {
